@@ -13,7 +13,7 @@ pub fn plan() -> Plan {
         meta: EvMeta {
             property: "C17",
             level: "exploration",
-            rule: "a corpus of directories written by the PINNED tree (corpus_gen built against a worktree of the pinned commit; key sizes 4/8/16/32, no bloom / two non-default bloom configs, 1-4 blobs, metas, deletion markers, multi-version keys, values up to 4.5 KB) is committed together with the answers the pinned tree itself gave after a restart (read bytes digest, contains, read_all_with_deletion_marker with data digests and metas, read_with per meta, check_filters, counts). For every directory and EVERY subset of removed index files the current tree opens a copy (eager and lazy init) and must give identical answers; then all filter buffers are off-loaded and the filter answers and reads must still be identical (hash function and bit order compatibility). Mismatch cases on copies: blob header version patched, index header version patched, directory opened with another key size: no query may return data from the mismatching blob; the mismatch must surface as an init error of validation kind or as an intact quarantine with corrupted_blobs_count incremented (an index version mismatch may instead fall back to regeneration with identical answers). exhaustive over the committed corpus x index subsets. Non-trivial = case with at least one index file removed or a mismatch patch; distinct = (directory, subset/patch, init flavour).",
+            rule: "a corpus of directories written by the PINNED tree (corpus_gen built against a worktree of the pinned commit; key sizes 4/8/16/32, no bloom / two small bloom configs / pearl's default bloom config (filters of ~760 KiB per blob), 1-4 blobs, metas, deletion markers, multi-version keys, values up to 4.5 KB) is committed together with the answers the pinned tree itself gave after a restart (read bytes digest, contains, read_all_with_deletion_marker with data digests and metas, read_with per meta, check_filters, counts). For every directory and EVERY subset of removed index files the current tree opens a copy (eager and lazy init) and must give identical answers; then all filter buffers are off-loaded and the filter answers and reads must still be identical (hash function and bit order compatibility). Mismatch cases on copies: blob header version patched, index header version patched, directory opened with another key size: no query may return data from the mismatching blob; the mismatch must surface as an init error of validation kind or as an intact quarantine with corrupted_blobs_count incremented (an index version mismatch may instead fall back to regeneration with identical answers). exhaustive over the committed corpus x index subsets. Non-trivial = case with at least one index file removed or a mismatch patch; distinct = (directory, subset/patch, init flavour).",
             assumptions: vec!["the corpus under /verif/corpus was produced by tools/gen_corpus.sh from the pinned commit recorded in corpus/PINNED_COMMIT", "answers recorded by the pinned tree are taken as the reference"],
         },
         shards: 16,
@@ -69,6 +69,7 @@ fn bloom_cfg(kind: u64) -> Option<BloomConfig> {
     match kind {
         0 => None,
         1 => Some(BloomConfig { elements: 50, hashers_count: 2, max_buf_bits_count: 1001, buf_increase_step: 7, preferred_false_positive_rate: 0.01 }),
+        3 => Some(BloomConfig::default()),
         _ => Some(BloomConfig { elements: 300, hashers_count: 3, max_buf_bits_count: 4099, buf_increase_step: 13, preferred_false_positive_rate: 0.001 }),
     }
 }
